@@ -232,10 +232,36 @@ fn winsor_model(x: &[X], method: u8, p: f64) -> Option<(f64, f64)> {
 
 fn check_winsor(word: &[u8], alpha: &[X], ctx: &mut Ctx) {
     let x = decode(word, alpha);
-    let fam = "winsorize";
+    check_winsor_x("winsorize", word, x, ctx)
+}
+
+/// long series for the order-statistic based bounds (17..=64 elements, see C12 `order-long`)
+fn winsor_long(thorough: bool, ctx: &mut Ctx) {
+    let lens: Vec<usize> = if thorough { vec![17, 18, 24, 33, 64] } else { vec![17, 24] };
+    for len in lens {
+        let mut shapes = rollcheck::structured_shapes(len, true);
+        for k in [7usize, 11] {
+            let m = if len % k == 0 { len + 1 } else { len };
+            let perm: Vec<X> = (0..len).map(|i| Some(((i * k) % m) as f64)).collect();
+            let mut holes = perm.clone();
+            for i in (2..len).step_by(5) {
+                holes[i] = None;
+            }
+            shapes.push((format!("perm({k})"), perm));
+            shapes.push((format!("perm({k})+nulls"), holes));
+        }
+        for (_label, x) in shapes {
+            ctx.states += 1;
+            ctx.transitions += 1;
+            check_winsor_x("winsorize-long", &[], x, ctx);
+        }
+    }
+}
+
+fn check_winsor_x(fam: &str, word: &[u8], x: Vec<X>, ctx: &mut Ctx) {
     ctx.fam(fam).states += 1;
     if x.iter().any(|v| v.is_some()) {
-        ctx.nontrivial(fam, hash_bytes(word));
+        ctx.nontrivial(fam, mix(hash_bytes(word), hash_u64s(&x.iter().map(|v| v.map_or(7, |a| a.to_bits())).collect::<Vec<_>>())));
     }
     type W = fn(&[X], u8, Option<f64>) -> Option<Outcome<Result<Vec<Cell>, ()>>>;
     for (tname, run) in [("f64", winsorize::<f64> as W), ("Option<f64>", winsorize::<Option<f64>> as W), ("i32", winsorize::<i32> as W)] {
@@ -448,6 +474,7 @@ fn main() {
         let word = syms_from_json(&case["word"]);
         match case["family"].as_str().unwrap_or("") {
             "winsorize" => check_winsor(&word, &wz.alpha, &mut ctx),
+            "winsorize-long" => check_winsor_x("winsorize-long", &[], word_from_json(&case["series"]), &mut ctx),
             "spearman" => check_spearman(&word, &sp.alpha, &mut ctx),
             _ => {
                 let x = word_from_json(&case["series"]);
@@ -464,10 +491,11 @@ fn main() {
     total.merge(explore_tree(&hl, run.threads));
     total.merge(explore_tree(&wz, run.threads));
     total.merge(explore_tree(&sp, run.threads));
+    winsor_long(!run.quick(), &mut total);
     watch.done.store(true, AO::SeqCst);
     total.sample(json!({"op": "half_life", "series": "ramp 0..40", "min_periods": 1, "model": 39}));
     let meta = Meta {
-        rule: "half_life: the ramp family (len 1..=N, every min_periods: realises every (len, L) pair hence every path of the doubling search and of the bisection), square-wave / staircase / alternating profiles, AR(1)-type paths with every persistence 0, 0.05, .., 0.95, 0.99 under three fixed innovation patterns, and every word over {null,-1,0,1,2} up to length L with every min_periods (f64 and Option<f64>): no panic, returns (watchdog), result in 1..=len-1 (0 iff len < 2), and when the model's lag profile is a strict threshold profile the result is the first lag not above 0.5 capped at len-1. winsorize: every word of the value alphabet x 3 methods x parameter grids: one output per input, nulls stay null, inside values bit-identical, outside values on the nearer model bound, order preserving. vcorr(Spearman): every pair word over {null,0,1,2,3}^2 with <= 1 null each: equals Pearson of average ranks; invariant under 2x+1, x^3, exp. Non-trivial = distinct words / (len, min_periods) points.".into(),
+        rule: "half_life: the ramp family (len 1..=N, every min_periods: realises every (len, L) pair hence every path of the doubling search and of the bisection), square-wave / staircase / alternating profiles, AR(1)-type paths with every persistence 0, 0.05, .., 0.95, 0.99 under three fixed innovation patterns, and every word over {null,-1,0,1,2} up to length L with every min_periods (f64 and Option<f64>): no panic, returns (watchdog), result in 1..=len-1 (0 iff len < 2), and when the model's lag profile is a strict threshold profile the result is the first lag not above 0.5 capped at len-1. winsorize: every word of the value alphabet, and long structured series of 17..=64 elements (ramps, saws, plateaus, modular permutations, null patterns), x 3 methods x parameter grids: one output per input, nulls stay null, inside values bit-identical, outside values on the nearer model bound, order preserving. vcorr(Spearman): every pair word over {null,0,1,2,3}^2 with <= 1 null each: equals Pearson of average ranks; invariant under 2x+1, x^3, exp. Non-trivial = distinct words / (len, min_periods) points.".into(),
         bounds: json!({"ramp_len": run.pick(48, 96), "profile_len": run.pick(24, 56), "half_life_words_L": hl.max_len, "winsorize": {"alphabet": json_word(&wz.alpha), "L": wz.max_len, "q": [0, 0.01, 0.1, 0.25, 0.5], "k": [0, 0.5, 1, 3]}, "spearman_L": sp.max_len}),
         assumptions: vec!["profiles within 1e-6 of the 0.5 threshold are judged for totality and range only".into(), "finite exact inputs (DESIGN 5.2)".into()],
         exhaustive: true,
